@@ -298,7 +298,16 @@ def _check_manager(case, rec, layer):
         if case["method"] != "ROWWISE":
             exp_n = len(fields[-1]) if large else len(fields[0])
             exp_h = hmax if large else hmin
-            if n != exp_n or abs(out.H - exp_h) > 1e-9:
+            sized_inside = False
+            if n == exp_n and abs(out.H - exp_h) > 1e-9:
+                # knife edge: the search (candidate object built at the bound) saw the bound as sufficient / insufficient, the
+                # final object (hybrid loads built at max height) does not and size() found a root inside the window. The
+                # statement's condition 'no candidate can meet the limits' is then false and a feasible design is what it asks for
+                mx, mn, _ = guarded(gs.fresh_simulate, case, out.coords, out.H, layer, what="fresh re-simulation")
+                sized_inside = abs(max(mx - case["max_eft"], case["min_eft"] - mn)) <= 1e-2  # a root, not merely feasible
+                if sized_inside:
+                    rec.cls("escape_message_but_final_sizing_found_a_root")
+            if not sized_inside and (n != exp_n or abs(out.H - exp_h) > 1e-9):
                 raise Violation(f"{case['method']}: fallback returned {n} boreholes at {out.H} m, policy says {exp_n} at {exp_h} m",
                                 sig={"kind": "wrong_fallback", "side": "large" if large else "small", "method": case["method"]})
         rec.cls("escaped_large" if large else "escaped_small")
